@@ -158,9 +158,9 @@ func (h *Header) TakeFrom(src []byte) ([]byte, error) {
 		return nil, err
 	}
 
-	wantedSize := int(h.archiveCount * archiveInfoListSize)
-	if len(src) < wantedSize {
-		return nil, &WantLargerBufferError{WantedBufSize: metaSize + wantedSize}
+	wantedSize64 := int64(h.archiveCount) * archiveInfoListSize
+	if int64(len(src)) < wantedSize64 {
+		return nil, &WantLargerBufferError{WantedBufSize: int(metaSize + wantedSize64)}
 	}
 
 	h.archiveInfoList = make(ArchiveInfoList, h.archiveCount)
